@@ -36,7 +36,7 @@ class ShapeLaw:
         t0 = time.time()
         res = Result(name=self.name, verdict="error", mode="E2")
         try:
-            M = P.Model(cm)
+            M = P.get_model(cm)
             Pm = PG.catalogue()[self.nm]()
             shape = Pm.gf.get_zero_trace(*Pm.args).get_choices()
             real_sel = cm._shape_selection(shape)
